@@ -286,7 +286,8 @@ COMBINATORS = {
     O_ + "::is_some_and": dict(adt=O_, on="Some", arg="value", res="raw", other=("const", "bool", 0)),
     O_ + "::is_none_or": dict(adt=O_, on="Some", arg="value", res="raw", other=("const", "bool", 1)),
     R_ + "::is_ok_and": dict(adt=R_, on="Ok", arg="value", res="raw", other=("const", "bool", 0)),
-    O_ + "::map_or": None,
+    O_ + "::map_or": dict(adt=O_, on="Some", arg="value", res="raw", other=("operand", 1), carg=2),
+    R_ + "::map_or": dict(adt=R_, on="Ok", arg="value", res="raw", other=("operand", 1), carg=2),
     "core::bool::then": dict(adt="bool", on="true", arg="none", res=("wrap", O_, "Some"), other=("unit", O_, "None")),
 }
 VARIANTS = {R_: ("Ok", "Err"), O_: ("None", "Some"), "bool": ("false", "true")}
@@ -362,9 +363,9 @@ def lower_candidates(prog, f):
                     out.append((b.idx, {"kind": "call"}, g, cloc))
             continue
         spec = COMBINATORS.get(callee_skey(t) or "")
-        if not spec or t.get("to") is None or len(t["args"]) != 2:
+        if not spec or t.get("to") is None or len(t["args"]) != spec.get("carg", 1) + 1:
             continue
-        x, c = t["args"]
+        x, c = t["args"][0], t["args"][spec.get("carg", 1)]
         if x.get("k") != "move" or x["pl"]["p"] or c.get("k") != "move" or c["pl"]["p"]:
             continue
         if not (f.locals[x["pl"]["l"]].startswith(spec["adt"] + "<") or (spec["adt"] == "bool" and f.locals[x["pl"]["l"]] == "bool")):
@@ -511,6 +512,8 @@ def _lower(d, bidx, spec, g, cl, f_locals):
         st_o = [stmt(copy.deepcopy(dest), rewrap(oth))]
     elif o == "payload":
         st_o = [stmt(copy.deepcopy(dest), {"r": "use", "a": {"k": "move", "pl": payload(oth)}})]
+    elif o[0] == "operand":
+        st_o = [stmt(copy.deepcopy(dest), {"r": "use", "a": copy.deepcopy(t["args"][o[1]])})]
     elif o[0] == "const":
         st_o = [stmt(copy.deepcopy(dest), {"r": "use", "a": {"k": "const", "c": {"ty": o[1], "v": o[2]}}})]
     elif o[0] == "unit":
